@@ -15,7 +15,7 @@ use crate::names::Names;
 use crate::tape::Tape;
 use ironplc_dsl::common::*;
 use ironplc_dsl::configuration::*;
-use ironplc_dsl::core::{Id, SourceSpan};
+use ironplc_dsl::core::SourceSpan;
 use ironplc_dsl::sfc::*;
 use ironplc_dsl::textual::*;
 use ironplc_dsl::time::DurationLiteral;
